@@ -4,6 +4,7 @@ import (
 	"go/ast"
 	"go/token"
 	"go/types"
+	"golang.org/x/tools/go/cfg"
 	"strings"
 )
 
@@ -598,4 +599,203 @@ func orEdge(fs ...func(b *cfgBlock, i int) bool) func(b *cfgBlock, i int) bool {
 		}
 		return false
 	}
+}
+
+// ---------------------------------------------------------------------------
+// Loops over a collection, independent of the loop form.
+
+// ElemLoop is a loop that visits the elements of a collection:
+//
+//	for _, x := range L            (x is the element)
+//	for i := range L               (L[i] is the element)
+//	for i := 0; i < len(L); i++    (L[i] is the element; also with a snapshot `s := L` taken just before)
+type ElemLoop struct {
+	Stmt  ast.Stmt // *ast.RangeStmt or *ast.ForStmt
+	Body  *ast.BlockStmt
+	List  ast.Expr     // the collection as written in the loop header
+	Val   types.Object // range value variable (nil for index loops)
+	Idx   types.Object // index variable (nil if blank)
+	Whole bool         // every element is visited unless the body leaves early
+	info  *types.Info
+	fbody ast.Node
+}
+
+// IsElem: e denotes the element of the current iteration (the value variable, List[idx], or a local defined once
+// inside the body as List[idx]).
+func (l *ElemLoop) IsElem(e ast.Expr) bool {
+	e = ast.Unparen(e)
+	if ix, ok := e.(*ast.IndexExpr); ok {
+		return l.Idx != nil && objOf(l.info, ix.Index) == l.Idx && sameListExpr(l.info, ix.X, l.List)
+	}
+	o := objOf(l.info, e)
+	if o == nil {
+		return false
+	}
+	if l.Val != nil && o == l.Val {
+		return true
+	}
+	if posIn(l.Body, o.Pos()) {
+		if def, n := localDef(l.info, l.Body, o); n == 1 && def != nil {
+			if ix, ok := ast.Unparen(def).(*ast.IndexExpr); ok {
+				return l.Idx != nil && objOf(l.info, ix.Index) == l.Idx && sameListExpr(l.info, ix.X, l.List)
+			}
+		}
+	}
+	return false
+}
+
+// ElemObj: the variable holding the element, if there is one (value variable or the local defined as List[idx]).
+func (l *ElemLoop) ElemObj() types.Object {
+	if l.Val != nil {
+		return l.Val
+	}
+	var res types.Object
+	ast.Inspect(l.Body, func(n ast.Node) bool {
+		if as, ok := n.(*ast.AssignStmt); ok && as.Tok == token.DEFINE && len(as.Lhs) == 1 && len(as.Rhs) == 1 {
+			if l.IsElem(as.Rhs[0]) {
+				if _, isIx := ast.Unparen(as.Rhs[0]).(*ast.IndexExpr); isIx && res == nil {
+					res = l.info.Defs[as.Lhs[0].(*ast.Ident)]
+				}
+			}
+		}
+		return true
+	})
+	return res
+}
+
+func sameListExpr(info *types.Info, a, b ast.Expr) bool {
+	a, b = ast.Unparen(a), ast.Unparen(b)
+	if oa, ob := objOf(info, a), objOf(info, b); oa != nil && ob != nil {
+		if _, isSel := a.(*ast.SelectorExpr); !isSel {
+			return oa == ob
+		}
+	}
+	return exprStr(a) == exprStr(b)
+}
+
+// elemLoops finds the loops over collections accepted by isList. A local snapshot (`s := L; for i := 0; i <
+// len(s); i++`) is seen through: isList is also asked about the single definition of a local collection.
+func elemLoops(info *types.Info, fbody ast.Node, isList func(e ast.Expr) bool) []*ElemLoop {
+	listOK := func(e ast.Expr) bool {
+		if isList(e) {
+			return true
+		}
+		if o, ok := objOf(info, e).(*types.Var); ok && !o.IsField() {
+			if def, n := localDef(info, fbody, o); n == 1 && def != nil && isList(def) {
+				return true
+			}
+		}
+		return false
+	}
+	var out []*ElemLoop
+	ast.Inspect(fbody, func(n ast.Node) bool {
+		switch s := n.(type) {
+		case *ast.RangeStmt:
+			if !listOK(s.X) {
+				return true
+			}
+			l := &ElemLoop{Stmt: s, Body: s.Body, List: s.X, Whole: true, info: info, fbody: fbody}
+			if s.Value != nil {
+				l.Val = objOf(info, s.Value)
+			}
+			if s.Key != nil {
+				if id, ok := s.Key.(*ast.Ident); !ok || id.Name != "_" {
+					l.Idx = objOf(info, s.Key)
+				}
+			}
+			out = append(out, l)
+		case *ast.ForStmt:
+			// for i := 0; i < len(L); i++
+			init, ok := s.Init.(*ast.AssignStmt)
+			if !ok || len(init.Lhs) != 1 || len(init.Rhs) != 1 {
+				return true
+			}
+			idx := objOf(info, init.Lhs[0])
+			cond, ok := s.Cond.(*ast.BinaryExpr)
+			if !ok || idx == nil || cond.Op != token.LSS || objOf(info, cond.X) != idx {
+				return true
+			}
+			lc, ok := ast.Unparen(cond.Y).(*ast.CallExpr)
+			if !ok || len(lc.Args) != 1 {
+				return true
+			}
+			if id, ok := lc.Fun.(*ast.Ident); !ok || id.Name != "len" {
+				return true
+			}
+			if !listOK(lc.Args[0]) {
+				return true
+			}
+			post, ok := s.Post.(*ast.IncDecStmt)
+			whole := ok && post.Tok == token.INC && objOf(info, post.X) == idx
+			if tv, ok := info.Types[init.Rhs[0]]; !ok || tv.Value == nil || tv.Value.String() != "0" {
+				whole = false
+			}
+			// the index must not be written in the body
+			if assignedBetween(info, s.Body, idx, s.Body.Pos(), s.Body.End()) {
+				whole = false
+			}
+			out = append(out, &ElemLoop{Stmt: s, Body: s.Body, List: lc.Args[0], Idx: idx, Whole: whole, info: info, fbody: fbody})
+		}
+		return true
+	})
+	return out
+}
+
+// LoopDone: the points reached when the loop has run to completion (not by break / return).
+func (f *Flow) LoopDone(l *ElemLoop) []Pt {
+	var out []Pt
+	for _, b := range f.G.Blocks {
+		if b.Stmt == l.Stmt && (b.Kind == cfg.KindRangeDone || b.Kind == cfg.KindForDone) {
+			out = append(out, Pt{b, 0})
+		}
+	}
+	return out
+}
+
+// LoopBodyStart: the first point of an iteration's body.
+func (f *Flow) LoopBodyStart(l *ElemLoop) []Pt {
+	var out []Pt
+	for _, b := range f.G.Blocks {
+		if b.Stmt == l.Stmt && (b.Kind == cfg.KindRangeBody || b.Kind == cfg.KindForBody) {
+			out = append(out, Pt{b, 0})
+		}
+	}
+	return out
+}
+
+// IterEnd: pt is where an iteration of the loop ends (next iteration's head, the loop's done block) – or a function exit.
+func (f *Flow) IterEnd(l *ElemLoop) func(Pt) bool {
+	return func(pt Pt) bool {
+		if pt.B.Stmt == l.Stmt && pt.I == 0 {
+			switch pt.B.Kind {
+			case cfg.KindRangeLoop, cfg.KindRangeDone, cfg.KindForPost, cfg.KindForDone:
+				return true
+			case cfg.KindForLoop:
+				return true
+			}
+		}
+		return f.IsExitPt(pt)
+	}
+}
+
+// reachesCall: fi's body (closures and go statements included) contains a call satisfying pred, directly or
+// through functions of the maddy module it calls statically (bounded depth).
+func (p *Prog) reachesCall(fi *FuncInfo, pred CallPred, depth int) bool {
+	if fi == nil || fi.Decl.Body == nil {
+		return false
+	}
+	info := fi.Info()
+	for _, call := range callsIn(fi.Decl.Body) {
+		if pred(info, call) {
+			return true
+		}
+		if depth > 0 {
+			if fn := callee(info, call); fn != nil && fn.Pkg() != nil && strings.HasPrefix(fn.Pkg().Path(), modPath) && fn != fi.Obj {
+				if d := p.DeclOf(fn); d != nil && p.reachesCall(d, pred, depth-1) {
+					return true
+				}
+			}
+		}
+	}
+	return false
 }
